@@ -200,6 +200,19 @@ let do_match (l : level) (gen : n) qty taker =
   | Some ((l', gen'), r) -> Some (l', gen', r)
   | None -> None
 
+(* event tokens of the C15 judges (JUDGE stats / JUDGE statsr); rebuild events only where allowed *)
+let stats_ev_of (rebuilds : bool) (s : string) =
+  match String.split_on_char '|' s with
+  | ["A"; o] -> let o = order_of_string o in (OAdd o, OutAdd o)
+  | ["M"; q; taker; txs; rem; complete] ->
+    (OMatch (n_of_string q, oid_of_string taker),
+     OutMatch { r_taker = oid_of_string taker; r_txs = parse_list judge_tx_of_string txs;
+                r_remaining = n_of_string rem; r_complete = (complete = "1"); r_filled = [] })
+  | ["U"; u; out] -> (OUpdate (update_of_string u), OutUpdate (uout_of_string out))
+  | ["B"; "snap"; listing] when rebuilds -> (ORebuildSnap (parse_list order_of_string listing), OutRebuilt)
+  | ["B"; "data"; listing] when rebuilds -> (ORebuildData (parse_list order_of_string listing), OutRebuilt)
+  | _ -> failwith ("bad event " ^ s)
+
 let rebuild via (l : level) (listing : order list) : level =
   match via with
   | "snap" ->
@@ -598,15 +611,14 @@ let handle line =
   (* C15: JUDGE stats <level price> <added> <removed> <quantity> <value> <event> ...   with events
      A|<order>   M|<qty>|<taker>|<txs>|<remaining>|<complete>   U|<update>|<outcome> *)
   | "JUDGE" :: "stats" :: p :: added :: removed :: qty :: value :: evs ->
-    let ev_of s = (match String.split_on_char '|' s with
-        | ["A"; o] -> let o = order_of_string o in (OAdd o, OutAdd o)
-        | ["M"; q; taker; txs; rem; complete] ->
-          (OMatch (n_of_string q, oid_of_string taker),
-           OutMatch { r_taker = oid_of_string taker; r_txs = parse_list judge_tx_of_string txs;
-                      r_remaining = n_of_string rem; r_complete = (complete = "1"); r_filled = [] })
-        | ["U"; u; out] -> (OUpdate (update_of_string u), OutUpdate (uout_of_string out))
-        | _ -> failwith ("bad event " ^ s)) in
-    if stats_b (n_of_string p) (List.map ev_of (List.filter (fun s -> s <> "") evs))
+    if stats_b (n_of_string p) (List.map (stats_ev_of false) (List.filter (fun s -> s <> "") evs))
+        (n_of_string added) (n_of_string removed) (n_of_string qty) (n_of_string value)
+    then "= 1" else "= 0"
+  (* C15 across rebuilds: JUDGE statsr <level price> <added> <removed> <quantity> <value> <event> ...   events as for
+     `stats`, plus   B|snap|<listing>   B|data|<listing>   (a rebuild of the level from its own snapshot-like /
+     data-like form; <listing> = the orders handed over).  Spec/Judges.v stats_rebuild_b *)
+  | "JUDGE" :: "statsr" :: p :: added :: removed :: qty :: value :: evs ->
+    if stats_rebuild_b (n_of_string p) (List.map (stats_ev_of true) (List.filter (fun s -> s <> "") evs))
         (n_of_string added) (n_of_string removed) (n_of_string qty) (n_of_string value)
     then "= 1" else "= 0"
   (* ---- judges of the concurrent properties (Spec/ConcJudges.v) on the scheduler's event log ---- *)
